@@ -49,12 +49,59 @@ theorem failed_connect_cleans_up (dev : DevDesc) (script : List Resp) (dflt : Re
     (connect dev script dflt).recvThreadRunning = false ∧ (connect dev script dflt).intfRunning = false :=
   connect_raised_flags dev script dflt e h
 
-/-- connect either succeeds with the device's description or raises TimeoutError / struct.error -/
+/-- connect either succeeds with the device's description or raises TimeoutError / struct.error (an info answer whose
+    payload is too short) / UnicodeDecodeError (a channel-info answer whose name is not UTF-8: R4-C-L1) -/
 theorem connect_outcomes (dev : DevDesc) (script : List Resp) (dflt : Resp) :
     (connect dev script dflt).outcome = .connected dev.chmax dev.flags dev.rxpadding ∨
     (connect dev script dflt).outcome = .raised .timeout ∨
-    (connect dev script dflt).outcome = .raised .structError := by
+    (connect dev script dflt).outcome = .raised .structError ∨
+    (connect dev script dflt).outcome = .raised .unicodeError := by
   rw [connect_outcome]; exact connectLoop_outcome dev _ _
+
+/-- a well-formed STREAM frame as the answer to an info request (R4-C-L1) is NOT the cheap "wrong frame": it goes to
+    the stream queue, the request costs its whole time-out and yields nothing — exactly a silent link -/
+theorem wrong_stream_costs_the_wait (s : St) (r : Req) (t : Nat) (h : s.next.1 = .wrongStream) :
+    (request s r t).1 = .nothing ∧ (request s r t).2.time = s.time + t := by
+  unfold request
+  unfold St.next at h ⊢
+  cases hs : s.script with
+  | nil => simp [hs] at h ⊢; simp [h]
+  | cons x xs => simp [hs] at h ⊢; simp [h]
+
+/-- … and the same frame as the answer to an awaited set / start / stop request: the ACK wait runs out -/
+theorem wrong_stream_ack_fails (x : Sess) (r : Sent) (t : Nat) (hs : x.started = true)
+    (ha : Info.ackSupported x.dev.flags = true) (h : x.st.next.1 = .wrongStream) :
+    (ackReq x r t).1 = .fail ∧ (ackReq x r t).2.st.time = x.st.time + t := by
+  unfold ackReq
+  simp only [hs, ha, Bool.and_self, ↓reduceIte]
+  unfold St.next at h ⊢
+  cases hsc : x.st.script with
+  | nil => simp [hsc] at h ⊢; simp [h]
+  | cons y ys => simp [hsc] at h ⊢; simp [h]
+
+/-- a channel-info answer whose name is not UTF-8 raises at once (`_str.decode()`); connect re-raises it after the
+    clean-up (`failed_connect_cleans_up`) -/
+theorem bad_name_raises (s : St) (i t : Nat) (h : s.next.1 = .badName) :
+    (request s (.chinfo i) t).1 = .raise .unicodeError ∧ (request s (.chinfo i) t).2.time = s.time := by
+  unfold request
+  unfold St.next at h ⊢
+  cases hs : s.script with
+  | nil => simp [hs] at h ⊢; simp [h]
+  | cons x xs => simp [hs] at h ⊢; simp [h]
+
+/-- not vacuous, and the reviewer's run: two STREAM frames as answers to common-info cost 2 × 1 s on top of the 1.6 s
+    of a clean connect (the cheap wrong frame costs nothing) -/
+example : (connect ⟨2, 3, 0⟩ [.wrongStream, .wrongStream] .ok).outcome = .connected 2 3 0 ∧
+    (connect ⟨2, 3, 0⟩ [.wrongStream, .wrongStream] .ok).time = 36 ∧
+    (connect ⟨2, 3, 0⟩ [.wrong, .wrong] .ok).time = 16 := by decide +kernel
+example : ({ script := [.wrongStream], dflt := .ok } : St).next.1 = .wrongStream := by decide
+example :
+    let x := (commConnect (Sess.fresh ⟨1, 3, 0⟩ [.ok, .ok, .wrongStream] .ok)).2
+    x.started = true ∧ Info.ackSupported x.dev.flags = true ∧ x.st.next.1 = .wrongStream := by decide +kernel
+/-- the new outcome occurs, and the clean-up ran -/
+example : (connect ⟨2, 3, 0⟩ [.ok, .ok, .badName] .ok).outcome = .raised .unicodeError ∧
+    (connect ⟨2, 3, 0⟩ [.ok, .ok, .badName] .ok).recvThreadRunning = false ∧
+    (connect ⟨2, 3, 0⟩ [.badName] .ok).outcome = .connected 2 3 0 := by decide +kernel
 
 /-- a completely silent link: TimeoutError after the drain and six one-second attempts -/
 theorem silent_link (dev : DevDesc) :
